@@ -425,6 +425,25 @@ def _convert_solution(qv, S, truth, kind, opt, ctx, classes, rec):
                     raise Violation("convert_solution_value/%s_form_%s" % ("spin" if form_spin else "boolean", cont),
                                     "model value %r != enumerated value %r; enumerated=%r; %s" % (val, tE[r], enum, where))
     rec.add("convert_solution_calls", 6 << n)
+    # the same after the documented set_mapping with a mapping whose integers are not ascending in
+    # insertion order (on a copy; the source must stay unchanged)
+    if kind in gen.LABELLED_KINDS and n >= 2:
+        S2 = lib(S.copy, what="copy")
+        new_mp = {l: n - 1 - i for l, i in S2.mapping.items()}
+        lib(S2.set_mapping, new_mp, what="set_mapping")
+        for r in range(1 << n):
+            bits = [(r >> i) & 1 for i in range(n)]
+            for form_spin in (False, True):
+                vals = [1 - 2 * b for b in bits] if form_spin else list(bits)
+                for cont, sol in (("dict", dict(enumerate(vals))), ("list", list(vals)), ("tuple", tuple(vals))):
+                    cs = lib(S2.convert_solution, sol, spin=form_spin, what="convert_solution(after set_mapping)")
+                    for l, i in new_mp.items():
+                        own = (1 - 2 * bits[i]) if spin else bits[i]
+                        if cs.get(l) != own:
+                            raise Violation("convert_solution_after_set_mapping/%s_form_%s" % ("spin" if form_spin else "boolean", cont),
+                                            "mapping %r, solution %r (spin=%r) -> %r; variable %r (integer %d) should be %r" %
+                                            (new_mp, sol, form_spin, cs, l, i, own))
+        classes.add("convert_solution_after_set_mapping")
 
 
 def _export_Q(S, truth, labels, ctx):
